@@ -68,6 +68,26 @@ def streams(draw, kind):
             g = g.replace(b"\n", b" ").replace(b"\r", b" ")
             packets.append(g + b"\r\n")
             kinds.append("malformed")
+    if kind == "waveshare":
+        # serial specialities that stay inside the property's domain: packets that contain AA 55 after the header, packets whose
+        # last byte (checksum) is 0xAA, and marker-free stray bytes between packets (which lose nothing, C20)
+        extra = draw(st.lists(st.sampled_from(["inner_marker_id", "inner_marker_data", "checksum_aa", "stray55", "stray"]), max_size=4))
+        for e in extra:
+            pos = draw(st.integers(0, len(packets)))
+            if e == "inner_marker_id":
+                pk = wire.usb(wire.ident(59904, 170, 85, 6), bytes([0x00, 0xEE, 0x00]))
+            elif e == "inner_marker_data":
+                pk = wire.usb(wire.ident(127250, 3, 255, 2), bytes([7, 0xAA, 0x55, 0, 0, 0, 0, 0xFD]))
+            elif e == "checksum_aa":
+                pk = next(p for p in (wire.usb(wire.ident(127250, 4, 255, 2), bytes([9, b1, 0x30, 0, 0, 0, 0, 0xFD])) for b1 in range(256)) if p[19] == 0xAA)
+            elif e == "stray55":
+                pk = b"\x55"
+            else:
+                pk = draw(st.binary(min_size=1, max_size=12)).replace(b"\xaa\x55", b"\xaa\x54")
+                if not pk or pk == b"\xaa":
+                    pk = b"\x00"
+            packets.insert(pos, pk)
+            kinds.insert(pos, "malformed" if e.startswith("stray") else "valid")
     stream = b"".join(packets)
     n = len(stream)
     mode = draw(st.sampled_from(["whole", "bytewise", "random", "boundaries", "inside"]))
@@ -171,13 +191,42 @@ def _work(ctx: Ctx, item):
             ctx.klass("callback_faults")
         ctx.klass("delivered_messages", len(got))
         if ctx.evaluations % 25 == 1:
-            ctx.sample({"client": kind, "packets": len(packets), "cuts": cuts[:10], "behaviours": behaviours[:6], "delivered": len(got)})
+            ctx.sample({"client": kind, "packets": len(packets), "first_packets_hex": [p.hex() for p in packets[:2]], "cuts": cuts[:10],
+                        "behaviours": behaviours[:6], "settings": settings, "delivered": [g[0] for g in got][:6]})
         return compare(kind, outcome, got, exp, s, case)
 
     ctx.hyp(one, streams(kind), max_examples=n, name="receive-" + kind)
 
 
+def _serial_scenarios(ctx: Ctx, item):
+    """Systematic serial scenarios: packet ending in 0xAA / containing AA 55, a marker-free stray byte run, further packets, under
+    segmentations with read boundaries exactly at the borders."""
+    def usb(src, data, pgn=127250, dest=255):
+        return wire.usb(wire.ident(pgn, src, dest, 2), data)
+    p_aa = next(p for p in (usb(4, bytes([9, b1, 0x30, 0, 0, 0, 0, 0xFD])) for b1 in range(256)) if p[19] == 0xAA)
+    p_in = usb(170, bytes([0, 0xEE, 0]), 59904, 85)
+    p_dat = usb(3, bytes([7, 0xAA, 0x55, 0, 0, 0, 0, 0xFD]))
+    p1, p2 = usb(1, bytes([1, 0x10, 0x27, 0, 0, 0, 0, 0xFD])), usb(2, bytes([2, 0x20, 0x27, 0, 0, 0, 0, 0xFD]))
+    for first in (p_aa, p_in, p_dat, p1):
+        for stray in (b"", b"\x55", b"\x55\x01\x02", b"\x00", b"\xaa", b"\x55" * 3):
+            packets = [first] + ([stray] if stray else []) + [p1, p_aa] + ([stray] if stray else []) + [p2]
+            stream = b"".join(packets)
+            borders, pos = [], 0
+            for p in packets[:-1]:
+                pos += len(p)
+                borders.append(pos)
+            for cuts in ([], borders, borders[:1], list(range(1, len(stream))), [b - 1 for b in borders], [b + 1 for b in borders if b + 1 < len(stream)]):
+                ctx.count()
+                ctx.nontrivial_extra += 1
+                case = {"client": "waveshare", "packets": [p.hex() for p in packets], "cuts": cuts, "behaviours": [], "yields": 0.001, "settings": {}}
+                outcome, got, exp, s = run_case("waveshare", packets, cuts, [], 0.001, {})
+                for b, w, c in compare("waveshare", outcome, got, exp, s, case):
+                    ctx.report(b, w, c)
+    ctx.klass("serial_boundary_scenarios")
+
+
 def run(ctx: Ctx):
+    pmap(ctx, _serial_scenarios, [(0,)])
     n = 60 if ctx.quick else 800
     pmap(ctx, _work, [(k, n) for k in aio.CLIENT_KINDS for _ in range(4)])
 
